@@ -395,7 +395,7 @@ def detectXMLEncoding(fp, log=None, includeDefault=True):  # noqa: C901
     xmlDeclPattern = r"""
     ^<\?xml             # w/o BOM, xmldecl starts with <?xml at the first byte
     .+?                 # some chars (version info), matched minimal
-    encoding=           # encoding attribute begins
+    encoding\s*=\s*     # encoding attribute begins (Eq ::= S? '=' S?)
     ["']                # attribute start delimiter
     (?P<encstr>         # what's matched in the brackets will be named encstr
      [^"']+              # every character not delimiter (not overly exact!)
